@@ -21,7 +21,7 @@ def run(run, only=None):
     n = 3 if run.tier == "quick" else 4
     t = 240.0 if run.tier == "quick" else 1500.0
     run.bounds = {"solver histories": "all legal sequences of length %d over %s" % (n + 1, c16_xh.S_CMDS),
-                  "script histories": "all legal sequences of length %d over %s" % (n + 1, c16_xh.P_CMDS),
+                  "script histories": "all legal sequences of length %d over %s" % (n + 1 if run.tier == "quick" else 5, c16_xh.P_CMDS),
                   "check point": "solver.assertions read once after the last command of every history (every prefix is itself a history: 'end' code); script result compared at the end"}
     run.outside = ["sequences longer than the bound", "named assertions / unsat-core bookkeeping"]
     run.assumptions = ["reference assertion stack RefStack (props/c16_xh.py) is the SMT-LIB semantics",
@@ -42,21 +42,30 @@ def run(run, only=None):
                 continue
             if nm in ("pop1", "pop2"):
                 continue            # never legal as the first command
-            jobs.append(("props.c16_xh", "h_script", t, {"first": k, "len": n, "reduced": run.tier == "quick",
-                                                         "name": "script/%s+%d%s" % (nm, n, "r" if run.tier == "quick" else "")}))
+            if run.tier == "quick":
+                jobs.append(("props.c16_xh", "h_script", t, {"first": k, "len": n, "reduced": True, "name": "script/%s+%dr" % (nm, n)}))
+                continue
+            # thorough: the first TWO commands are fixed per condition (16^3 paths each instead of 16^4)
+            for k2, nm2 in enumerate(c16_xh.P_CMDS):
+                if nm2 == "pop2" and nm not in ("push2",):
+                    continue        # illegal after a single level
+                jobs.append(("props.c16_xh", "h_script", 600.0, {"first": k, "second": k2, "len": 3, "reduced": False,
+                                                                 "name": "script/%s,%s+3" % (nm, nm2)}))
 
     def describe(p, r):
         cmds = c16_xh.S_CMDS if "solver" in p["name"] else c16_xh.P_CMDS
         rest = ((c16_xh.S_REDUCED if p.get("reduced") else cmds) + ["end"]) if "solver" in p["name"] else \
             (c16_xh.P_REDUCED if p.get("reduced") else cmds)
-        seq = [cmds[p["first"]]] + [rest[c] if 0 <= c < len(rest) else "?" for c in (r["args"] or [])[:p["len"]]]
+        seq = [cmds[p["first"]]] + ([cmds[p["second"]]] if "second" in p else []) + \
+            [rest[c] if 0 <= c < len(rest) else "?" for c in (r["args"] or [])[:p["len"]]]
         return "command sequence %s: reported assertions/goals differ from the SMT-LIB assertion stack" % seq
 
     def sig(p, a):
         cmds = c16_xh.S_CMDS if "solver" in p["name"] else c16_xh.P_CMDS
         rest = ((c16_xh.S_REDUCED if p.get("reduced") else cmds) + ["end"]) if "solver" in p["name"] else \
             (c16_xh.P_REDUCED if p.get("reduced") else cmds)
-        seq = [cmds[p["first"]]] + [rest[c] if 0 <= c < len(rest) else "?" for c in (a or [])[:p["len"]]]
+        seq = [cmds[p["first"]]] + ([cmds[p["second"]]] if "second" in p else []) + \
+            [rest[c] if 0 <= c < len(rest) else "?" for c in (a or [])[:p["len"]]]
         return "stack/%s/%s" % ("solver" if "solver" in p["name"] else "script", ",".join(seq))
     run_xh_family(run, "xh-history", jobs, describe, sig, "xh")
     twin_check(run, "xh-history", jobs[::7])
